@@ -5,7 +5,7 @@ From Quiver Require Import vm.Wf vm.Remap vm.RemapProofs.
 Section WFREN.
 Variable rho : renaming.
 Variable X X' : xprogram.
-Hypothesis HR : is_renaming rho X X' = true.
+Hypothesis HR : struct_ok rho X X' = true.
 Let P := project X.
 Let P' := project X'.
 Let FX := the_facts rho X X' HR.
@@ -18,10 +18,10 @@ Proof.
   unfold P, P', project; cbn [p_ntypes]. split; apply nth_error_Some; congruence.
 Qed.
 
-Lemma transfer_ren k len pc i i' a : instr_ok rho X i i' = true ->
+Lemma transfer_ren k len pc i i' a : instr_img rho i i' = true ->
   transfer P k len pc i a = transfer P' k len pc i' a.
 Proof.
-  intros H. apply (instr_ok_inv rho X) in H. destruct i; cbv beta iota in H; try (subst i'; reflexivity).
+  intros H. apply (instr_ok_inv rho) in H. destruct i; cbv beta iota in H; try (subst i'; reflexivity).
   - destruct H as (k' & Hk & ->). destruct (const_facts rho X X' HR _ _ Hk) as (c & A & B).
     cbn [transfer]. fold P in A. fold P' in B.
     replace (k0 <? length (p_consts P)) with true by (symmetry; apply Nat.ltb_lt, nth_error_Some; congruence).
@@ -43,7 +43,7 @@ Proof.
 Qed.
 
 Lemma check_pc_ren k code code' A pc :
-  Forall2 (fun i j => instr_ok rho X i j = true) code code' ->
+  Forall2 (fun i j => instr_img rho i j = true) code code' ->
   check_pc P k code A pc = check_pc P' k code' A pc.
 Proof.
   intros Hc. unfold check_pc. destruct (nth_error A pc) as [[a|]|]; try reflexivity.
@@ -81,7 +81,7 @@ Qed.
 (* wf_stable_under_renaming: a verified program stays verified, certificate for certificate, on
    everything the renaming maps (i.e. everything reachable from the entry). The target may hold
    other programs' functions (merge): nothing is claimed about those. *)
-Theorem wf_stable_under_renaming rho X X' As : is_renaming rho X X' = true ->
+Theorem wf_stable_under_struct rho X X' As : struct_ok rho X X' = true ->
   check_program (project X) As = true ->
   forall f f', app (r_f rho) f = Some f' ->
   exists A fd', nth_error As f = Some A /\ nth_error (p_funcs (project X')) f' = Some fd' /\
@@ -91,3 +91,10 @@ Proof.
   destruct (check_all_nth' _ _ _ HC _ _ A1) as (A & HA & Hchk).
   exists A, fd'. repeat split; auto. eapply check_function_ren; eauto.
 Qed.
+
+Theorem wf_stable_under_renaming rho X X' As : is_renaming rho X X' = true ->
+  check_program (project X) As = true ->
+  forall f f', app (r_f rho) f = Some f' ->
+  exists A fd', nth_error As f = Some A /\ nth_error (p_funcs (project X')) f' = Some fd' /\
+                check_function (project X') fd' A = true.
+Proof. intros HR. apply is_renaming_split in HR. apply wf_stable_under_struct. apply HR. Qed.
